@@ -125,6 +125,8 @@ class H5Group:
         automatically determined by the data
         :param compression: whether to compress the data (default: False)
         """
+        # refused before an existing dataset is resized
+        util.check_storable_text(data)
         shape = np.shape(data)
         if self.has_data(name):
             dset = self.get_dataset(name)
@@ -252,6 +254,8 @@ class H5Group:
         self._group.visititems(delete_by_id)
 
     def set_attr(self, name, value):
+        # refused before the group is created or the attribute replaced
+        util.check_storable_text(value)
         self._create_h5obj()
         if value is None:
             if name in self.group.attrs:
